@@ -36,6 +36,11 @@ def import_repo():
     import warnings
     warnings.simplefilter("ignore")
     import dendropy  # noqa
+    try:   # deprecation banners are noise on stderr; silencing them changes no behaviour under test
+        from dendropy.utility import deprecate
+        deprecate.dendropy_deprecation_warning = lambda **kwargs: None
+    except Exception:
+        pass
     got = os.path.realpath(os.path.dirname(os.path.dirname(dendropy.__file__)))
     if got != os.path.realpath(src):
         raise RuntimeError("dendropy imported from %s, expected %s" % (got, src))
